@@ -156,7 +156,7 @@ def check(ctx) -> Result:
     from ..inline import with_helpers as _wh
     _nrm = _N(lambda e: repr(e.value) if isinstance(e, ast.Constant) else None)
     fast = None
-    for n_ in walk_no_nested(_wh(ctx, bs, inline_locals=False).node):
+    for n_ in walk_no_nested(bs.node):
         if isinstance(n_, ast.If) and any(isinstance(c, ast.Call) and isinstance(c.func, ast.Attribute) and "basic" in c.func.attr for b_ in n_.body + n_.orelse for c in ast.walk(b_)):
             fast = n_
     if fast is None:
